@@ -40,6 +40,24 @@ package uniprot
 // documents in which every entry is a TrEMBL one, and documents in which the
 // datasets alternate and every entry carries a value drawn at random.
 //
+// WHITE SPACE in the sequence text (part 10). The property demands "the
+// sequence text of each" entry: the character data of the entry's <sequence>
+// element as the document has it. Older UniProt dumps and any pretty-printing
+// writer put the residues on lines of their own, in blocks of ten, indented:
+// the character data then begins and/or ends with white space (blank, tab,
+// newline, CR LF, newline plus indentation) and has white space between the
+// residues. The part lays such sequence elements out (c20SeqEdges x
+// c20SeqWraps x c20SeqEdges; one entry among k, or every entry) and demands the
+// text exactly as an independent read of the finished document with the
+// standard tokenizer (c20DocSeqTexts: encoding/xml Decoder.Token, character
+// data directly inside the entry's own sequence element) reports it: white
+// space kept where it is, CR LF handed on as LF as XML 1.0 section 2.11
+// prescribes, nothing trimmed, collapsed or joined. For these entries the
+// expectation is taken from that read, not from the generator (c20Ent.seqRaw);
+// the generator's own model of the text is only cross-checked against it.
+// Classes sequence-text-with-edge-whitespace, sequence-text-with-inner-whitespace,
+// sequence-whitespace-mixed.
+//
 // Every call of Parse/Read happens in a child process (this test binary
 // re-executed with -test.run=^TestVerifC20Child$) under an address-space limit
 // and a per-case deadline, because a parser that spins or blocks cannot be
@@ -79,6 +97,14 @@ type c20Ent struct {
 	Seq  string
 	num  *c20Num   // numbers to lay out in the rich form instead of the drawn ones (nil: draw)
 	ann  *c20Annot // further child elements to lay out in the rich form (nil: none)
+	// seqRaw, if not empty, is what the layout writes between <sequence ...> and
+	// </sequence> instead of Seq: residues with white space before, after and
+	// between them (part 10). Seq then is NOT given by the generator but read
+	// back from the finished document with the standard tokenizer
+	// (c20DocSeqTexts), and seqRes is the number of residue letters (the length
+	// attribute of the rich layout).
+	seqRaw string
+	seqRes int
 }
 
 // c20Num gives numeric attributes of one entry in the rich layout. A zero
@@ -223,7 +249,13 @@ func c20Build(rng *rand.Rand, ents []c20Ent, rich bool) c20Doc {
 				b.WriteString(e.ann.post)
 				seqAttrs = e.ann.seqAttrs
 			}
-			b.WriteString("  <sequence length=\"" + strconv.Itoa(len(e.Seq)) + "\" mass=\"" + strconv.Itoa(110*len(e.Seq)) + "\" checksum=\"" + c20Word(rng, "0123456789ABCDEF", 16, 16) + "\" modified=\"" + seqModified + "\" version=\"" + strconv.Itoa(seqVersion) + "\"" + seqAttrs + ">" + e.Seq + "</sequence>\n")
+			seqText, seqLen := e.Seq, len(e.Seq)
+			if e.seqRaw != "" {
+				seqText, seqLen = e.seqRaw, e.seqRes
+			}
+			b.WriteString("  <sequence length=\"" + strconv.Itoa(seqLen) + "\" mass=\"" + strconv.Itoa(110*seqLen) + "\" checksum=\"" + c20Word(rng, "0123456789ABCDEF", 16, 16) + "\" modified=\"" + seqModified + "\" version=\"" + strconv.Itoa(seqVersion) + "\"" + seqAttrs + ">" + seqText + "</sequence>\n")
+		} else if e.seqRaw != "" {
+			b.WriteString("<sequence>" + e.seqRaw + "</sequence>")
 		} else {
 			b.WriteString("<sequence>" + e.Seq + "</sequence>")
 		}
@@ -617,6 +649,108 @@ func c20WellFormed(text []byte) error {
 	}
 }
 
+// ------------------------------------------ white space in the sequence text
+
+// c20SeqEdges: what may stand between the start tag of the sequence element
+// and the first residue, and between the last residue and the end tag.
+var c20SeqEdges = []struct{ ws, what string }{
+	{"", "nothing"},
+	{" ", "a blank"},
+	{"  ", "two blanks"},
+	{"\t", "a tab"},
+	{"\n", "a newline"},
+	{"\r\n", "CR LF"},
+	{"\n    ", "a newline and four blanks"},
+	{"\r\n\t", "CR LF and a tab"},
+}
+
+// c20SeqWraps: how the residues are broken up: blocks of block letters
+// separated by blockSep, perLine blocks on a line, lines separated by lineSep
+// (block 0: all residues in one piece).
+var c20SeqWraps = []struct {
+	block    int
+	blockSep string
+	perLine  int
+	lineSep  string
+	what     string
+}{
+	{0, "", 0, "", "the residues in one piece"},
+	{10, " ", 1 << 30, "", "the residues in blocks of 10 separated by a blank"},
+	{7, "", 1, "\n", "the residues on lines of 7 separated by a newline"},
+	{7, "", 1, "\r\n", "the residues on lines of 7 separated by CR LF"},
+	{5, "", 1, "\n    ", "the residues on lines of 5, every further line indented by four blanks"},
+	{4, "\t", 3, "\n", "the residues in blocks of 4 separated by a tab, three blocks on a line, lines separated by a newline"},
+	{10, " ", 6, "\n", "the residues in blocks of 10 separated by a blank, six blocks (60 residues) on a line, lines separated by a newline (the layout of older UniProt dumps)"},
+}
+
+// c20SeqLayout writes the residues res with the given white space.
+func c20SeqLayout(res string, lead, wrap, trail int) string {
+	w := c20SeqWraps[wrap]
+	var b strings.Builder
+	b.WriteString(c20SeqEdges[lead].ws)
+	if w.block == 0 {
+		b.WriteString(res)
+	} else {
+		for i, n := 0, 0; i < len(res); i, n = i+w.block, n+1 {
+			if n > 0 && n%w.perLine == 0 {
+				b.WriteString(w.lineSep)
+			} else if n > 0 {
+				b.WriteString(w.blockSep)
+			}
+			end := i + w.block
+			if end > len(res) {
+				end = len(res)
+			}
+			b.WriteString(res[i:end])
+		}
+	}
+	b.WriteString(c20SeqEdges[trail].ws)
+	return b.String()
+}
+
+// c20DocSeqTexts is the oracle of part (10): an independent read of the
+// document with the standard tokenizer (encoding/xml Decoder.Token, no
+// unmarshalling) that returns, for every entry element under the root, the
+// character data that stands directly inside the entry's own sequence element
+// (a direct child of the entry; sequence elements nested deeper, as in isoform
+// and conflict elements, are not the entry's sequence). This is "the sequence
+// text" of the entry as the document states it: the tokenizer resolves
+// references and, as XML 1.0 section 2.11 prescribes for every XML processor,
+// hands CR LF and a lone CR on as a single LF; it removes nothing else.
+func c20DocSeqTexts(text []byte) ([]string, error) {
+	dec := xml.NewDecoder(bytes.NewReader(text))
+	var stack []string
+	var out []string
+	var cur strings.Builder
+	own := func() bool {
+		return len(stack) == 3 && stack[1] == "entry" && stack[2] == "sequence"
+	}
+	for {
+		tok, err := dec.Token()
+		if err == io.EOF {
+			return out, nil
+		} else if err != nil {
+			return nil, err
+		}
+		switch x := tok.(type) {
+		case xml.StartElement:
+			stack = append(stack, x.Name.Local)
+			if own() {
+				cur.Reset()
+			}
+		case xml.EndElement:
+			if own() {
+				out = append(out, cur.String())
+			}
+			stack = stack[:len(stack)-1]
+		case xml.CharData:
+			if own() {
+				cur.Write(x)
+			}
+		}
+	}
+}
+
 // c20Prolog: what the small prolog document puts before its root element.
 const c20Prolog = "<?xml version=\"1.0\" encoding=\"UTF-8\"?>\n<!-- comment -->\n"
 
@@ -991,6 +1125,7 @@ type c20Spec struct {
 	want      []c20Ent // well-formed: exactly these; damaged: these must come first
 	needError bool
 	desc      string
+	quoteSeq  bool // part (10): show sequence texts quoted in messages (they hold white space)
 }
 
 func c20EntsEqual(a, b c20Ent) bool {
@@ -999,6 +1134,11 @@ func c20EntsEqual(a, b c20Ent) bool {
 
 func c20ShowEnt(e c20Ent) string {
 	return fmt.Sprintf("{acc %v name %v seq %s}", e.Acc, e.Name, e.Seq)
+}
+
+// c20ShowEntQ is c20ShowEnt with the sequence text quoted (Go syntax).
+func c20ShowEntQ(e c20Ent) string {
+	return fmt.Sprintf("{acc %v name %v seq %s}", e.Acc, e.Name, strconv.Quote(e.Seq))
 }
 
 func c20Clip(s string, n int) string {
@@ -1625,6 +1765,182 @@ func TestVerifC20(t *testing.T) {
 		rng = saved
 	}
 
+	// (10) both tiers: well-formed documents, compact and in the layout of the
+	// real dump, in which the character data of an entry's own <sequence>
+	// element begins and/or ends with white space or has white space between
+	// the residues: blank, two blanks, tab, newline, CR LF, newline or CR LF
+	// plus indentation before the first and/or after the last residue
+	// (c20SeqEdges); the residues in one piece, in blocks separated by blanks or
+	// tabs, on several lines separated by newline, CR LF or newline plus
+	// indentation, and in the 6 x 10 layout of older UniProt dumps
+	// (c20SeqWraps). ONE entry among k (first, middle or last) has such a
+	// sequence element, or EVERY entry has one. The expected sequence text is
+	// not the generator's: it is read back from the finished document with the
+	// standard tokenizer (c20DocSeqTexts) - the character data as written, CR LF
+	// handed on as LF as every XML processor must, nothing trimmed or joined.
+	// Own stream, added last.
+	nSeqWS, nSeqWSMixed := 0, 0
+	{
+		saved := rng
+		rng = rand.New(rand.NewSource(seed ^ 0x2020202020202020))
+		type combo struct{ lead, wrap, trail int }
+		nE, nW := len(c20SeqEdges), len(c20SeqWraps)
+		randomCombo := func() combo {
+			for {
+				c := combo{rng.Intn(nE), rng.Intn(nW), rng.Intn(nE)}
+				if c != (combo{}) {
+					return c
+				}
+			}
+		}
+		var combos []combo
+		if thorough {
+			for l := 0; l < nE; l++ {
+				for w := 0; w < nW; w++ {
+					for tr := 0; tr < nE; tr++ {
+						if c := (combo{l, w, tr}); c != (combo{}) {
+							combos = append(combos, c)
+						}
+					}
+				}
+			}
+		} else {
+			for e := 1; e < nE; e++ {
+				combos = append(combos, combo{e, 0, 0}, combo{0, 0, e}, combo{e, 0, e})
+			}
+			for w := 1; w < nW; w++ {
+				combos = append(combos, combo{0, w, 0}, combo{1 + (w*3)%(nE-1), w, 1 + (w*5)%(nE-1)})
+			}
+			combos = append(combos, combo{4, nW - 1, 4}) // older dumps: newline, 6 x 10 residues per line, newline
+			for i := 0; i < 8; i++ {
+				combos = append(combos, randomCombo())
+			}
+		}
+		classOf := func(c combo) string {
+			if c.lead != 0 || c.trail != 0 {
+				return "sequence-text-with-edge-whitespace"
+			}
+			return "sequence-text-with-inner-whitespace"
+		}
+		whatOf := func(c combo) string {
+			return fmt.Sprintf("%s between the start tag and the first residue, %s, %s between the last residue and the end tag", c20SeqEdges[c.lead].what, c20SeqWraps[c.wrap].what, c20SeqEdges[c.trail].what)
+		}
+		// wsEnt draws an entry and lays its residues out with the white space of c
+		// (enough residues for the wrapping to show: more than one block, more than
+		// one line)
+		wsEnt := func(c combo) c20Ent {
+			e := c20NewEnt(rng, 60)
+			res := e.Seq
+			if w := c20SeqWraps[c.wrap]; w.block > 0 {
+				min := w.block + 1
+				if w.perLine > 1 && w.perLine < 1<<30 && rng.Intn(3) > 0 {
+					min = w.block*w.perLine + 1
+				}
+				res = c20Word(rng, c20Amino, min, c20Max(150, 2*min))
+			}
+			e.Seq, e.seqRaw, e.seqRes = "", c20SeqLayout(res, c.lead, c.wrap, c.trail), len(res)
+			return e
+		}
+		// build lays the document out and takes the expected sequence texts from an
+		// independent read of it with the standard tokenizer
+		build := func(ents []c20Ent, rich bool) c20Doc {
+			d := c20Build(rng, ents, rich)
+			texts, err := c20DocSeqTexts(d.text)
+			if err != nil {
+				t.Fatalf("generator: the standard tokenizer refuses a generated document: %v\n%s", err, d.text)
+			}
+			if len(texts) != len(ents) {
+				t.Fatalf("generator: the standard tokenizer finds %d entry sequence elements in a document of %d entries\n%s", len(texts), len(ents), d.text)
+			}
+			for i := range ents {
+				if ents[i].seqRaw == "" {
+					if texts[i] != ents[i].Seq {
+						t.Fatalf("generator: the standard tokenizer reads sequence text %q where %q was written\n%s", texts[i], ents[i].Seq, d.text)
+					}
+					continue
+				}
+				// XML 1.0, 2.11: CR LF and any CR not followed by LF are passed on as one LF; nothing else happens to character data without references
+				if model := strings.ReplaceAll(strings.ReplaceAll(ents[i].seqRaw, "\r\n", "\n"), "\r", "\n"); texts[i] != model {
+					t.Fatalf("generator: the standard tokenizer reads sequence text %q where %q was written (expected it to report %q)", texts[i], ents[i].seqRaw, model)
+				}
+				d.ents[i].Seq = texts[i]
+			}
+			return d
+		}
+		for ci, c := range combos {
+			ks := []int{3}
+			if thorough {
+				ks = []int{1, 2, 3, 9}
+			}
+			for _, k := range ks {
+				positions := []int{[]int{0, 1, 0, 1, 2}[ci%5] % k}
+				if thorough {
+					positions = []int{0}
+					if k > 2 {
+						positions = append(positions, k/2)
+					}
+					if k > 1 {
+						positions = append(positions, k-1)
+					}
+				}
+				for _, j := range positions {
+					ents := make([]c20Ent, k)
+					for i := range ents {
+						ents[i] = c20NewEnt(rng, 60)
+					}
+					ents[j] = wsEnt(c)
+					rich := (ci+k+j)%2 == 0
+					d := build(ents, rich)
+					where := "middle"
+					switch {
+					case k == 1:
+						where = "only"
+					case j == 0:
+						where = "first"
+					case j == k-1:
+						where = "last"
+					}
+					desc := fmt.Sprintf("entry %d of %d (the %s one) has a sequence element whose character data has %s: written %s, reported by the standard tokenizer as %s; %s", j+1, k, where, whatOf(c), strconv.Quote(c20Clip(ents[j].seqRaw, 160)), strconv.Quote(c20Clip(d.ents[j].Seq, 160)), docDesc(d))
+					mode := (ci + k + j) % 2
+					addParse(d.text, mode, true, classOf(c), d.ents, false, desc)
+					specs[len(specs)-1].quoteSeq = true
+					if ci%3 == 0 && k == 3 {
+						addRead(c20Gzip(d.text), 1-mode, true, classOf(c), d.ents, false, desc)
+						specs[len(specs)-1].quoteSeq = true
+					}
+					nSeqWS++
+				}
+			}
+		}
+		mixed := 6
+		if thorough {
+			mixed = 200
+		}
+		for m := 0; m < mixed; m++ {
+			k := []int{5, 20, 60}[m%3]
+			ents := make([]c20Ent, k)
+			shapes := make([]string, k)
+			var whats []string
+			for i := range ents {
+				c := randomCombo()
+				ents[i], shapes[i] = wsEnt(c), classOf(c)
+				if i < 4 {
+					whats = append(whats, fmt.Sprintf("entry %d: %s", i+1, whatOf(c)))
+				}
+			}
+			d := build(ents, m%2 == 0)
+			desc := "every entry has a sequence element whose character data holds white space, drawn at random (" + strings.Join(whats, "; ") + "; ...); " + docDesc(d)
+			addParse(d.text, m%2, true, "sequence-whitespace-mixed", d.ents, false, desc)
+			specs[len(specs)-1].shapes, specs[len(specs)-1].quoteSeq = shapes, true
+			if m%2 == 0 {
+				addRead(c20Gzip(d.text), 1-m%2, true, "sequence-whitespace-mixed", d.ents, false, desc)
+				specs[len(specs)-1].shapes, specs[len(specs)-1].quoteSeq = shapes, true
+			}
+			nSeqWSMixed++
+		}
+		rng = saved
+	}
+
 	// ------------------------------------------------------------ observe
 	queues := make([][]c20Case, workers)
 	// damaged cases (which may each cost a full deadline) are spread evenly
@@ -1662,13 +1978,18 @@ func TestVerifC20(t *testing.T) {
 			"sequence caution with a conflict holding <sequence resource=... version=\"1|2|12\"/> (sequence-caution-comment); features located by positions with a status attribute and without a number (feature-position-status); sequence variant and splice variant features with <original>/<variation> (variant-features); references with citation dates 2003, 2003-05, 2003-05-17, 1987-03, author lists, scopes, sources (reference-citation); dbReference elements with properties and molecule, proteinExistence (db-reference-and-protein-existence); precursor and fragment attributes on the entry's sequence element (sequence-precursor-fragment-attributes); "+
 			"plus %d documents of k in {5, 20, 60} entries in which EVERY entry carries one of these annotations drawn at random (class: that of the first entry that arrives wrong; annotated-entries-mixed if entries are only missing); all k entries with accessions, names and sequence text demanded as for any other document; "+
 			"plus enumerated attribute values: %d documents in the layout of the real dump, each checked with the standard tokenizer beforehand, of k = 3 entries (thorough tier k in {1, 2, 3, 9}; for the dataset k in {1, 2, 3, 9} and every position in both tiers) of which ONE (first, middle or last in turn) carries one value of an attribute that uniprot.xsd restricts to an enumeration or types xs:boolean, EVERY value of every such attribute once: %s; "+
-			"plus %d documents of k in {1, 2, 3, 9, 40} entries that are ALL dataset=\"TrEMBL\" entries; plus %d documents of k in {6, 40, 120} entries whose datasets go Swiss-Prot, TrEMBL in turn (every third document: in runs of three) and in which every entry carries one further of these values drawn at random (class enumerated-values-mixed if entries are only missing, else that of the first entry that arrives wrong: its dataset class if it is a TrEMBL entry, else the class of its other value); a valid document whichever values it carries: all k entries with accessions, names and sequence text demanded as for any other document; non-trivial = k >= 1",
-			reps, nLarge, c20LargeVersions, c20LargeSeqVersions, c20LargeSeqLens, c20LargeEvidenceKeys, nDates, c20Dates, nAnnot, len(c20ListForms), c20MassValues(), nMixed, nEnum, c20EnumText(), nEnumAll, nEnumMixed))
+			"plus %d documents of k in {1, 2, 3, 9, 40} entries that are ALL dataset=\"TrEMBL\" entries; plus %d documents of k in {6, 40, 120} entries whose datasets go Swiss-Prot, TrEMBL in turn (every third document: in runs of three) and in which every entry carries one further of these values drawn at random (class enumerated-values-mixed if entries are only missing, else that of the first entry that arrives wrong: its dataset class if it is a TrEMBL entry, else the class of its other value); a valid document whichever values it carries: all k entries with accessions, names and sequence text demanded as for any other document; "+
+			"plus white space in the sequence text: %d documents, compact and in the layout of the real dump in turn, of k = 3 entries (thorough tier k in {1, 2, 3, 9}, each of first, middle and last) of which ONE (quick tier: first, middle or last in turn) has a <sequence> element whose character data begins and/or ends with white space or has white space between the residues: before the first residue and after the last one each of %s; %s; "+
+			"quick tier: every edge form before the first residue only, after the last residue only and at both ends with the residues in one piece, every wrapping form alone and with edge white space, the older-dump layout between two newlines, 8 combinations drawn at random; thorough tier: EVERY combination of the %d x %d x %d forms; classes sequence-text-with-edge-whitespace (white space at an end, with or without white space inside) and sequence-text-with-inner-whitespace (white space between residues only); "+
+			"plus %d documents of k in {5, 20, 60} entries in which EVERY entry has such a sequence element, forms drawn at random (class sequence-whitespace-mixed if entries are only missing, else that of the first entry that arrives wrong); expected sequence text = the character data of the entry's own sequence element as an independent read of the finished document with the standard tokenizer (encoding/xml Decoder.Token) reports it, i.e. the text as written in the document, white space included, CR LF handed on as LF (XML 1.0, 2.11), nothing trimmed or joined; accessions, names and all k entries demanded as for any other document; "+
+			"non-trivial = k >= 1",
+			reps, nLarge, c20LargeVersions, c20LargeSeqVersions, c20LargeSeqLens, c20LargeEvidenceKeys, nDates, c20Dates, nAnnot, len(c20ListForms), c20MassValues(), nMixed, nEnum, c20EnumText(), nEnumAll, nEnumMixed,
+			nSeqWS, c20SeqEdgeText(), c20SeqWrapText(), len(c20SeqEdges), len(c20SeqWraps), len(c20SeqEdges), nSeqWSMixed))
 	vD := newVerifRun("C20", "io/uniprot.Parse/post/damaged-prefix", common+
 		fmt.Sprintf("%d small document(s) (<= 3 entries; compact, without XML declaration in the quick tier) cut at EVERY byte offset before the end of the root element (exhaustive, %s), and, in both tiers, one small document (2 entries, "+strconv.Itoa(len(prologDoc.text))+" bytes) that starts with an XML declaration, a newline, a comment '<!-- comment -->' and a newline before the <uniprot ...> root, also cut at EVERY byte offset, so that cuts inside and right after the declaration, inside and right after the comment, in the white space before the root and inside the root start tag are all covered (each must report >= 1 error and close both channels; class stem truncated-before-root); %d larger documents (2..200 entries) damaged in or before a chosen entry: mismatched end tag, '< ' or '& ' in text, byte 0x01, missing </entry>, unterminated start tag, '<<' between entries, cut at a random offset; plain through Parse (capacities 0..100), gzip-compressed through Read, and gzip files cut at a random offset (expected entries = those wholly inside what the standard decompressor recovers); demanded: expected entries first and in order, >= 1 error (on the channel, or returned by Read), both channels closed; non-trivial = every case",
 			len(small), map[bool]string{true: "both consumers", false: "consumers alternating"}[thorough], nBig))
 	vT := newVerifRun("C20", "io/uniprot.Parse/terminates", common+"every case of the clauses entries, damaged-prefix and gzip: the consumer returns (both channels seen closed) before the deadline; non-trivial = every case")
-	vG := newVerifRun("C20", "io/uniprot.Read/post/gzip", common+"well-formed documents (k = 0..3 and every 8th k up to 200) gzip-compressed into a temp file and read through Read (capacities fixed by Read at 100/100); same demands as the entries clause; plus every k = 3 document of the large-number part of the entries clause (entry version up to "+strconv.Itoa(c20LargeVersions[len(c20LargeVersions)-1])+", sequence version, sequence length and mass, feature positions, evidence key; same classes) and every k = 3 document with all three dates set of the date part of the entries clause (classes leap-day-date, calendar-edge-date); plus every third k = 3 document of the annotation part of the entries clause (evidence lists in all white-space forms, mass spectrometry and the other comment kinds, typed attributes; same classes) and every fourth document of its mixed part; plus of the enumerated-value part of the entries clause every k = 3 dataset document, every third k = 3 document of the other attributes, every all-TrEMBL document and every second document with the datasets in turn (same classes); "+
+	vG := newVerifRun("C20", "io/uniprot.Read/post/gzip", common+"well-formed documents (k = 0..3 and every 8th k up to 200) gzip-compressed into a temp file and read through Read (capacities fixed by Read at 100/100); same demands as the entries clause; plus every k = 3 document of the large-number part of the entries clause (entry version up to "+strconv.Itoa(c20LargeVersions[len(c20LargeVersions)-1])+", sequence version, sequence length and mass, feature positions, evidence key; same classes) and every k = 3 document with all three dates set of the date part of the entries clause (classes leap-day-date, calendar-edge-date); plus every third k = 3 document of the annotation part of the entries clause (evidence lists in all white-space forms, mass spectrometry and the other comment kinds, typed attributes; same classes) and every fourth document of its mixed part; plus of the enumerated-value part of the entries clause every k = 3 dataset document, every third k = 3 document of the other attributes, every all-TrEMBL document and every second document with the datasets in turn (same classes); plus of the sequence white-space part of the entries clause every third k = 3 document (sequence character data with white space at its ends and/or between the residues; classes sequence-text-with-edge-whitespace, sequence-text-with-inner-whitespace) and every second document of its mixed part (sequence-whitespace-mixed); "+
 		fmt.Sprintf("plus %d gzip files made of SEVERAL members (RFC 1952: a gzip file is a series of members and stands for the concatenation of their contents; pigz, bgzip and concatenated .gz parts look like this): well-formed documents of k in %s entries, the XML text split at byte positions and each piece written by its own gzip.Writer, the outputs concatenated: 2 members with the boundary after the first byte, inside the root start tag, right before an entry, right after entry 1, inside an entry; 4 members (before the first entry, after the last entry, before the last byte); 2..6 members at random byte offsets (two files per k); some with an additional member that holds no data at a random place; each file is first checked with the standard decompressor to stand for the document; all k entries demanded in order, both channels closed (class multi-member-gzip); ", nMulti, map[bool]string{true: "{1, 2, 3, 4, 5, 9, 20, 40, 100, 200}", false: "{1, 2, 3, 9, 40}"}[thorough])+
 		"non-trivial = k >= 1")
 	for _, v := range []*verifRun{vE, vD, vT, vG} {
@@ -1726,7 +2047,11 @@ func TestVerifC20(t *testing.T) {
 				break
 			}
 			if !c20EntsEqual(o.Entries[i], w) {
-				bad, badAt = fmt.Sprintf("entry %d is %s, want %s", i+1, c20ShowEnt(o.Entries[i]), c20ShowEnt(w)), i
+				show := c20ShowEnt
+				if s.quoteSeq {
+					show = c20ShowEntQ
+				}
+				bad, badAt = fmt.Sprintf("entry %d is %s, want %s", i+1, show(o.Entries[i]), show(w)), i
 				break
 			}
 		}
@@ -1765,6 +2090,23 @@ var (
 	// dates of part (7): leap days (of years divisible by 4, and of 2000, which is divisible by 400), the days around them, month and year ends
 	c20Dates = []string{"2000-02-29", "2004-02-29", "1996-02-29", "2012-12-31", "2000-03-01", "1999-12-31", "1988-02-29", "2020-02-29", "2000-02-28", "2000-12-31", "2001-01-01", "1999-02-28", "2010-01-31", "2011-11-30"}
 )
+
+// c20SeqEdgeText, c20SeqWrapText: the forms of part (10) for the domain text.
+func c20SeqEdgeText() string {
+	var parts []string
+	for _, e := range c20SeqEdges {
+		parts = append(parts, e.what+" "+strconv.Quote(e.ws))
+	}
+	return "{" + strings.Join(parts, ", ") + "}"
+}
+
+func c20SeqWrapText() string {
+	var parts []string
+	for _, w := range c20SeqWraps {
+		parts = append(parts, w.what)
+	}
+	return "the residues (1..60 letters in one piece, otherwise more than one block or line and up to 150 letters) laid out as one of: " + strings.Join(parts, " / ")
+}
 
 func c20MassValues() []string {
 	var out []string
